@@ -153,6 +153,7 @@ func runCheck(p *Prop, tier string, seed int64) int {
 	var allFindings []sym.Finding
 	var mapSites []mapSite
 	observed := 0
+	var observedFails []string
 	var structural []string
 	findingDir := map[string]string{}
 	var samples []sampleT
@@ -164,8 +165,10 @@ func runCheck(p *Prop, tier string, seed int64) int {
 			continue
 		}
 		if rs.LoadOnly {
+			// a package goag reported success for and that does not type-check is a
+			// concrete counterexample (observed natively, not a solver verdict)
 			for _, le := range errs {
-				inconclusive = append(inconclusive, "observed (not a solver verdict): generated package does not compile although goag reported success: "+le)
+				observedFails = append(observedFails, le)
 			}
 			observed += len(pkgs)
 			continue
@@ -397,6 +400,47 @@ func runCheck(p *Prop, tier string, seed int64) int {
 		violations = append(violations, sv)
 		fmt.Printf("VIOLATION property=%s replay=%s\n  %s\n", p.ID, rfile, sv)
 	}
+	// observation stage: corpus packages that do not compile, one violation per package
+	{
+		byPkg := map[string][]string{}
+		var order []string
+		for _, le := range observedFails {
+			name := ""
+			if i := strings.Index(le, "vscratch/pkgs/"); i >= 0 {
+				rest := le[i+len("vscratch/pkgs/"):]
+				if j := strings.IndexAny(rest, ": /"); j >= 0 {
+					name = rest[:j]
+				}
+			}
+			if _, ok := byPkg[name]; !ok {
+				order = append(order, name)
+			}
+			byPkg[name] = append(byPkg[name], le)
+		}
+		for i, name := range order {
+			var u *PkgUnit
+			for _, x := range c.Pkgs {
+				if x.Name == name {
+					u = x
+				}
+			}
+			doc := map[string]interface{}{"property": p.ID, "kind": "does-not-compile", "package": name, "errors": byPkg[name]}
+			if u != nil {
+				spec, _ := os.ReadFile(filepath.Join(u.Dir, "openapi.yaml"))
+				doc["spec"] = string(spec)
+				doc["cfg"] = u.Cfg
+				doc["flags"] = u.Flags
+			}
+			rfile := filepath.Join(verifDir, "replays", fmt.Sprintf("%s-compile-%d.json", p.ID, i+1))
+			bs, _ := json.MarshalIndent(doc, "", " ")
+			os.WriteFile(rfile, bs, 0o644)
+			sv := fmt.Sprintf("goag reported success for corpus spec %s but the generated package does not compile: %s", name, firstLine(byPkg[name][0]))
+			violations = append(violations, sv)
+			if i < 8 {
+				fmt.Printf("VIOLATION property=%s replay=%s\n  %s (observed by type-checking the generated package; not a solver verdict)\n", p.ID, rfile, sv)
+			}
+		}
+	}
 	// reachability witnesses: replay a few per run
 	wit := rp.Witnesses()
 	rp.Close()
@@ -537,6 +581,30 @@ func replayFile(p *Prop, file, tier string, seed int64) int {
 	if err != nil {
 		fmt.Println(err)
 		return 2
+	}
+	if doc.Kind == "does-not-compile" {
+		var od struct {
+			Spec  string   `json:"spec"`
+			Cfg   string   `json:"cfg"`
+			Flags GenFlags `json:"flags"`
+		}
+		json.Unmarshal(bs, &od)
+		if err := prepare(c); err != nil {
+			fmt.Println(err)
+			return 2
+		}
+		u := c.GenPackage("replay", "X", []byte(od.Spec), od.Cfg, od.Flags)
+		if u.GenErr != "" {
+			fmt.Printf("replay did not reproduce: the generator now rejects the spec: %s\n", firstLine(u.GenErr))
+			return 0
+		}
+		out, berr := runCmd(c.Mod, goEnv(), "go", "build", "./pkgs/replay")
+		if berr != nil {
+			fmt.Printf("VIOLATION property=%s replay=%s\n  reproduced natively: the generated package does not compile: %s\n", p.ID, file, firstLine(strings.TrimSpace(strings.TrimPrefix(out, "# vscratch/pkgs/replay\n"))))
+			return 1
+		}
+		fmt.Println("replay did not reproduce: the generated package compiles")
+		return 0
 	}
 	// restrict the corpus to the package of the harness
 	parts := strings.Split(doc.Harness, "/")
